@@ -199,4 +199,26 @@ theorem filter_rulesOf (c : Config) (f : Fam) (t : Table) (ch : Chain) :
   cases (f == .v6 && !c.enableIPv6) <;> simp
 
 
+/-! ### hook validity -/
+
+def hookE (e : Emit) : Bool := e.rule.hookValid
+
+theorem handleInbound_hookE (c : Config) : (handleInboundPortsInclude c).all hookE = true := by
+  unfold handleInboundPortsInclude
+  cases ht : c.tproxy <;> cases hi : c.inboundInclude <;>
+    simp [hookE, Rule.hookValid, Match.hookOK, hooksOf, inboundAll, inboundPorts, Config.inTable, ht,
+      List.all_append, List.all_flatMap, List.all_map, Function.comp_def, both, only, versioned]
+
+theorem compile_hookE (c : Config) : (compile c).all hookE = true := by
+  unfold compile
+  simp only [List.all_append, Bool.and_eq_true]
+  refine ⟨⟨⟨⟨⟨⟨⟨⟨⟨⟨⟨⟨⟨⟨⟨⟨⟨?_, ?_⟩, ?_⟩, ?_⟩, ?_⟩, ?_⟩, ?_⟩, ?_⟩, ?_⟩, ?_⟩, ?_⟩, ?_⟩, ?_⟩, ?_⟩, ?_⟩, ?_⟩, ?_⟩, ?_⟩
+  all_goals first | exact handleInbound_hookE c |
+    simp [hookE, Rule.hookValid, Match.hookOK, hooksOf, shortCircuitExcludeInterfaces,
+      shortCircuitKubeInternalInterface, dropInvalidRules, baseChains, outputJump, outboundPortsExclude,
+      passthroughSource, handleCaptureByOwnerGroup, loopbackReturn, outboundExcludeCidrs, handleOutboundPortsInclude,
+      handleOutboundIncludeRules, tproxyRules, uidBlock, gidBlock, setupDNSRedir, addDNSConntrackZones,
+      List.all_append, List.all_flatMap, List.all_map, Function.comp_def, both, only, versioned,
+      apply_ite (List.all · hookE)]
+
 end IstioModel.C20
